@@ -81,6 +81,12 @@ func ExportGenesis(ctx sdk.Context, k *keeper.Keeper, ak types.AccountKeeper) *t
 			return false
 		}
 
+		// the EVM addresses accounts by 20 bytes: an account stored under an address of any
+		// other length cannot hold code or storage, and EthAddress() would name another account
+		if len(ethAccount.GetAddress()) != common.AddressLength {
+			return false
+		}
+
 		addr := ethAccount.EthAddress()
 
 		storage := k.GetAccountStorage(ctx, addr)
